@@ -32,6 +32,8 @@ EXTRA = {
     "promise-wakeup-order": "const log: string[] = []; const ps = [3, 1, 2].map((n) => Promise.resolve(n).then((v) => { log.push('a' + v); return v; })); await Promise.all(ps); ps.forEach((p, i) => p.then(() => log.push('b' + i))); await null; await null; log.join()",
     "many-waiters": "import { order } from \"tsrun:host\"; const log: string[] = []; async function w(n: number) { const v = await order(n); log.push(n + ':' + v); } await Promise.all([w(5), w(3), w(9), w(1)]); log.join()",
     "symbol-ids": "const a = Symbol('a'), b = Symbol('b'); const o = { [b]: 1, [a]: 2 }; Object.getOwnPropertySymbols(o).map((s) => s.description).join() + String(a === Symbol('a'))",
+    "symbol-key-order": "const syms = ['a', 'b', 'c', 'd', 'e', 'f', 'g'].map((n) => Symbol(n)); const o: any = {}; for (const s of syms) o[s] = 1; const r = Symbol.for('reg'); o[r] = 2; [Object.getOwnPropertySymbols(o).map((s) => s.description).join(), Reflect.ownKeys({ ...o }).length, Object.getOwnPropertySymbols(Object.assign({}, o)).map((s) => String(s.description)).join('')].join('|')",
+    "symbols-in-map-set": "const ks = [1, 2, 3, 4, 5].map((i) => Symbol('k' + i)); const m = new Map(ks.map((k, i) => [k, i] as any)); const st = new Set(ks); const o: any = {}; ks.forEach((k, i) => { o[k] = i; o['p' + i] = i; }); [[...m.keys()].map((k: any) => k.description).join(), [...st].length, Object.getOwnPropertySymbols(o).map((k) => k.description).join(), Object.keys(o).join()].join('|')",
     "error-stack-text": "function f() { return new Error('e'); } const e = f(); String(e.stack).split('\\n').length + ':' + e.message",
     "sort-stability": "[5, 1, 4, 1, 3].map((v, i) => ({ v, i })).sort((a, b) => a.v - b.v).map((x) => x.v + '' + x.i).join()",
     "string-interning": "const parts: string[] = []; for (let i = 0; i < 30; i++) parts.push('k' + (i % 7)); const o: any = {}; parts.forEach((p) => o[p] = (o[p] || 0) + 1); JSON.stringify(o)",
